@@ -34,10 +34,17 @@ def main():
             with open(os.path.join(ctl, 'control.json'), 'w') as f:
                 json.dump({'fault': spec.get('fault'), 'delays': spec.get('delays'), 'collectors': spec['collector_ids'],
                            'collector_priority': spec.get('collector_priority'), 'warmup': spec.get('warmup') or 0,
-                           'collector_style': spec.get('collector_style') or 'append'}, f)
+                           'collector_style': spec.get('collector_style') or 'append', 'stop': spec['stop']}, f)
+            model_cls = bm.VModel
+            if spec.get('no_params'):
+                # plain replication: a model class without any parameter, an EMPTY grid ({} or an empty ParameterList) and repetitions
+                os.environ['VERIF_C15_CTL'] = ctl
+                model_cls = bm.ReplModel
             params = {k: (range(*v['__range__']) if isinstance(v, dict) and '__range__' in v else v) for k, v in spec['grid'].items()}
             params['ctl'] = ctl
             params['stop'] = spec['stop']
+            if spec.get('no_params'):
+                params = {}
             if spec.get('use_parameter_list'):
                 if spec.get('pl_from_dict'):
                     # declared through the constructor from a dict that the caller goes on using for something else afterwards
@@ -75,7 +82,7 @@ def main():
                 kw['repetitions'] = spec['repetitions']
             t0 = time.time()
             try:
-                res = batching.batch_run(bm.VModel, params, collectors=spec['collectors'], processes=spec['processes'], **kw)
+                res = batching.batch_run(model_cls, params, collectors=spec['collectors'], processes=spec['processes'], **kw)
                 out['result'] = res
                 out['aliasing'] = len({id(r) for r in res}) != len(res) if isinstance(res, list) else None
             except BaseException as e:  # noqa
